@@ -217,6 +217,28 @@ _more("C08", "The bounding-box preselection of the point location returns every 
 _more("C13", "Forms with a complex coefficient keep their imaginary part (R13.8, complex kind, repaired F55).")
 _more("C17", "The 3-D closed-form eigen-decomposition is interpreted in exact arithmetic on Q diag(a, b, c) Q^T with a rational rotation and every repetition pattern, mixed patterns inside one element: eigenvalues sorted, projectors rank-one orthogonal idempotents resolving the tensor (R17.12); projP equals the derivative of the positive part built from the known eigenvectors, projP + projM == identity (R17.13); every arccos / arcsin argument of the model is clipped to [-1, 1] (R17.14) (repaired F56; the former known findings F10 are repaired by the same commit).")
 
+# round 5 (DESIGN 7.10)
+_more("C01", "Since round 5: mesh motions hand every element group the moved coordinates and re-initialise its memoised factors (R1.11, real group objects); the change-of-basis identities R10.2 / R10.3 are shared with this property.")
+_more("C02", "Since round 5: Get_invF_e_pg is the point-wise inverse of Get_F_e_pg on curved TRI6 / TETRA10 (R2.12); the built-in anisotropic operator with a general tensor A (R2.1); the 1-D coefficient table of FeArray.broadcast, per element on the coincidence Ne == nPg (R2.11); members on the x axis drawn towards -x (R10.9, repaired F41).")
+_more("C03", "Since round 5: one slot fed by a real group and a complex group, in both orders (R3.9, 18 instances); the sparsity pattern is built from positions only: no narrow integer values in a duplicate-summing constructor, no value-dependent slot query (R3.11).")
+_more("C04", "Since round 5: the bordered multiplier system holds exactly ONE row per constrained dof with the sum of its entered values, no empty row, and its size agrees with _Bc_Lagrange_dim (R4.7 rewritten as a bijection rows <-> dofs, repaired F14a); with a Lagrange condition present every selectable SolverType is served by a direct factorisation (R4.12, _Solve_Axb interpreted for each member).")
+_more("C05", "Since round 5: the commit receives the corrector's VALUES (an in-place edit of the returned rates is seen) (R5.10); selecting a time scheme leaves the committed u, v, a and every attribute other than the scheme descriptor unchanged (R5.14); scheme setters validate before they store (R5.13, repaired F62).")
+_more("C06", "Since round 5: Get_N_pg / Get_dN_pg / Get_ddN_pg / Get_dddN_pg / Get_ddddN_pg of every Lagrange class equal the exact k-th derivatives of the shape functions at two rational points (R6.10, 95 instances; the syntactic getter form of R6.6 is retired for these).")
+_more("C07", "Since round 5: Get_weightedJacobian_e_pg == |det F| w with the rule's own negative weights and both element orientations (R7.11).")
+_more("C08", "Since round 5: Mesh.Evaluate_dofsValues_at_coordinates -> Get_Mapping -> _Get_Mapping interpreted END TO END on two triangles with a symbolic linear field, points on the shared edge / at a shared vertex / inside, candidate elements ascending, descending and repeated (R8.19, repaired F68); the iterative inverse map is selected for a general QUAD4 as meshed and mirrored (R8.20); |det F| w (R8.21); motions re-initialise the memo of every group (R8.15 on real groups); Calc_projector rows are single interpolations (R8.17, repaired F60); reflected normals (R8.18, known finding F59).")
+_more("C09", "Since round 5: a load whose nodes bound no element is an empty condition through the integrator, BoundaryCondition, Mesh.Get_normals and Get_Elements_Nodes (R9.15, repaired F67); the mass rule each element type uses for loads is exact to its documented order (R9.17); boundary groups are re-initialised by every mesh motion (R9.16); load entry points with a problemType default are overridden together (R9.14, repaired F61); emptiness tests are not counts (R9.9).")
+_more("C10", "Since round 5: R10.9 runs on the beam element classes themselves (repaired F41); the embedding dimension (R10.11); stiffness and compliance are turned by the same material -> global rotation (R10.12, R10.13); reflected normals (R10.10, known finding F59).")
+_more("C11", "Since round 5: integer parameter arrays are held as floats (R11.10, repaired F57); the heterogeneity test of every law reads every parameter its matrices read (R11.11, repaired F58); Anisotropic._Behavior on an integer-typed Voigt matrix with coupling terms (R11.12); R11.2 reports a compliance rotated the other way instead of aborting.")
+_more("C12", "Since round 5: constants written as lists / nested lists on either side of * and + for every field rank (R12.7, +48 obligations); the value table of the 1-D coefficient forms of FeArray.broadcast.")
+_more("C13", "Since round 5: values of VECTOR fields in forms (u.dot(v), (A @ u).dot(v), v.dot(b), (u @ b)(v @ b)): the shape function is carried by the active component (R13.8, 40 forms, repaired F25); the built-in anisotropic operator equals the form for a non-symmetric A (R13.11); the element system holds every given form whatever time scheme is selected (R13.3).")
+_more("C14", "Since round 5: Mesh.inDim / dim read after the groups changed their embedding equal those of a Mesh constructed on them (R14.23, repaired F69).")
+_more("C15", "Since round 5: no function of the simulations / models writes into a parameter whose default is a mutable literal (R15.15); WeakForms.Set_Iter across time schemes (R15.14, repaired F63).")
+_more("C16", "Since round 5: Behavior.Compute_stress hands its state to the plane-stress completion and to the stress evaluation with no elapsed time (R16.16); every guard on material.active_stress decides 'contributes' the same way for nowhere / everywhere / partly active fields (R16.17); state threading by parameter name (R16.15).")
+_more("C17", "Since round 5: the 2-D closed-form decomposition on exact equibiaxial / zero states mixed with generic ones: projectors (R17.15) and projP == d(eps+)/d(eps) shear entry included (R17.16); square roots of computed discriminants are clamped (R17.17) (repaired F65); the history field is kept per element group (R17.18, repaired F66); 3-D uniaxial states along the global axes, an exact 0/0 is reported as NaN (R17.12).")
+_more("C18", "Since round 5: the adaptive strain-path rule interpreted on three elements stopping on levels (1, 3, 1): each element's stress and tangent are its accepted rule on its own path (R18.17); the active-stress guards (R18.16).")
+_more("C19", "Since round 5: Behavior.__Flow interpreted with recording stand-ins on a material with a yield surface and a Maxwell branch: the Newton update ends with the projection __Bound, and the tangent is C - C.dudeps[eps_p] - sum g_i C.dudeps[eps_v_i] from the final Jacobian whether or not a point flows (R19.18); Compute_stress state threading (R19.16, R19.17).")
+_more("C20", "Since round 5: Mesh.Merge interpreted on three meshes around a shared corner (exact coincidence search and component labelling): coincide <=> same merged number, coordinates follow the mapping (R20.10); a single mesh mixing element types (R20.11, repaired F70).")
+
 # techniques as of DESIGN 7.8 (the deciding methods actually used)
 def _tech(pid, text):
     CHECKS[pid]["technique"] = text
